@@ -319,7 +319,7 @@ def maybe_oob(I, st):
         inst, kind, p, n, size = e[1], e[2], e[3], e[4], e[5]
         loc = '%s:%d' % (I.m.files[inst.file], inst.line) if inst is not None and hasattr(inst, 'line') else ''
         over = p.off + n - size          # > 0  => overrun
-        env = st.find_model([over, p.off], lambda v: v[0] > 0 or v[1] < 0)
+        env = e[6] if len(e) > 6 else st.find_model([over, p.off], lambda v: v[0] > 0 or v[1] < 0)
         if env is not None:
             viol.append(('oob', 'out-of-bounds %s at %s: offset %r + %r bytes vs object of %r bytes; witness %s' %
                          (kind, loc, p.off, n, size, fmt_env(env))))
